@@ -165,6 +165,12 @@ def multipart_boundary_calls(call, quick=True):
             if k % 6 == 1:
                 calls.append(call('make', [first, ch * k]))
                 calls.append(call('make', [first, ch * k, first], error='M', micro=False))
+    # the same in Micro QR Codes (M1 / M3: the last data codeword has 4 bits)
+    for first, ch in (('12', '3'), ('1', '2'), ('1234567890', '1'), ('A', 'B'), ('4', '0')):
+        for k in range(1, 16):
+            calls.append(call('make', [first, ch * k]))
+            if k % 3 == 0:
+                calls.append(call('make', [first, ch * k], error='M'))
     for k in (38, 39, 40, 41, 74, 75, 76, 77, 123, 124, 125, 126, 127):
         for ver in (1, 2, 3):
             calls.append(call('make', ['1', '2' * k], version=ver, error='L', boost_error=False))
